@@ -54,6 +54,12 @@ func (fr *Frame) stdModel(name string, fn *ssa.Function, args []Val, pos token.P
 		return Val{}, false
 	}
 	switch name {
+	case "(*math/big.Float).Sign":
+		// the sign of an arbitrary-precision value: a deterministic function of the value's identity, in {-1,0,1}
+		// (assumption: the big.Float values the exact predicates build are not mutated afterwards)
+		r := UFApp("big.Float.Sign", SInt, T(0))
+		c.assume(Or(Eq(r, BVLit(0, 64)), Eq(r, BVLit(1, 64)), Eq(r, BVLit(^uint64(0), 64))))
+		return one(r)
 	case "math/bits.TrailingZeros64", "math/bits.TrailingZeros32", "math/bits.TrailingZeros":
 		return one(tzTerm(T(0)))
 	case "math/bits.LeadingZeros64", "math/bits.LeadingZeros32":
